@@ -678,9 +678,9 @@ func main() {
 			"An (operation, kinds) tuple is non-trivial only when its forms compiled to ≥2 different instruction sequences (taken from the disassembly); evaluations of trivial tuples are not counted as non-trivial",
 		Assume:      []string{"method bodies compiled one at a time (MethodCheckConcurrencyLimit=1)", "inspect output identifies the value (C19 checks inspect itself)"},
 		CaseTimeout: 300 * time.Second,
-		// nominal run times are for an idle 16-core machine; the deadlines leave room for a loaded one
-		QuickDeadline:    45 * time.Minute,
-		ThoroughDeadline: 3 * time.Hour,
+		// nominal run times on an idle 16-core machine: quick ≈ 40 s, thorough ≈ 2.5 min
+		QuickDeadline:    10 * time.Minute,
+		ThoroughDeadline: 45 * time.Minute,
 		Setup: func(c *engine.Ctx) {
 			elkrun.Init()
 			typeEnv = checker.NewGlobalEnvironment()
@@ -1021,8 +1021,10 @@ func runCase(c *engine.Ctx, r *engine.R, op *operation, argTuples [][]*kind) {
 			r.Violation(fmt.Sprintf("%s %s", opFamily(op), key), f.detail, f.input)
 			continue
 		}
+		// one argument kind: name it; several: the defect does not depend on it (the list is in the detail). Naming
+		// the exact set would make the signature depend on the tier's value sets.
 		ks := strings.Join(f.kinds, "|")
-		if len(f.kinds) == len(active) && len(active) > 1 {
+		if len(f.kinds) > 1 {
 			ks = "*"
 		}
 		sig := fmt.Sprintf("%s kinds=%s", op.label, op.recv.name)
